@@ -90,10 +90,11 @@ def _worker(task):
     params = h._jobs[pidx]
     eng = Engine(max_steps=h.max_steps)
     interp = Interp()
-    res = dict(outcomes=collections.Counter(), violations=[], validated=0, mismatches=[], reached=collections.Counter(),
+    res = dict(outcomes=collections.Counter(), violations=[], validated=0, mismatches=[], reached=collections.Counter(), reached_job=set(),
                samples=[], inconclusive=[], steps_max=0, check_verdicts=collections.Counter())
 
     def fn(e):
+        api.ModuleState.restore()
         interp.set_stubs([])
         ctx = api.SymCtx(e, interp)
         return h.fn(ctx, **params)
@@ -104,6 +105,7 @@ def _worker(task):
         res["steps_max"] = max(res["steps_max"], pr.steps)
         for lab in set(pr.reached):
             res["reached"][lab] += 1
+            res["reached_job"].add(lab)
         for lab, verdict in pr.checks:
             res["check_verdicts"][verdict] += 1
             if verdict == "unknown":
@@ -247,6 +249,7 @@ def run_property(prop, tier, seed, only=None, workers=None, verbose=False):
                 ph = agg["per_harness"][hname]
                 ph["paths"] += r["stats"]["paths"]
                 ph["reached"].update(r["reached"])
+                ph.setdefault("reached_by_job", {}).setdefault(pidx, set()).update(r["reached_job"])
                 ph["outcomes"].update(r["outcomes"])
                 ph["steps_max"] = max(ph["steps_max"], r["steps_max"])
                 if len(agg["samples"]) < 12 and r["samples"]:
@@ -305,6 +308,11 @@ def run_property(prop, tier, seed, only=None, workers=None, verbose=False):
         for lab in h.must_reach:
             if not ph["reached"].get(lab):
                 vac.append(f"{h.name}: label '{lab}' never reached (vacuous harness?)")
+            elif h.per_job:
+                # every job (parameter set) of the harness needs its own reachability witness
+                missing = [i for i in range(len(h._jobs)) if (h.name, i) not in dead and lab not in ph.get("reached_by_job", {}).get(i, set())]
+                if missing:
+                    vac.append(f"{h.name}: label '{lab}' not reached by job(s) {missing[:6]} {_jsonable(h._jobs[missing[0]])} (no feasible path got there)")
         if not h.must_reach and not ph["reached"] and not h.raises and ph["outcomes"].get("return", 0) == 0:
             vac.append(f"{h.name}: no path returned and no check was reached")
     harness_errors = list(agg["errors"])
